@@ -75,25 +75,50 @@ func (s *ScopeSchema) ReflectedType() reflect.Type {
 	return s.RootObject().ReflectedType()
 }
 
+// checkedRootObject returns the root object, or an error if the scope definition is inconsistent. Scopes can
+// arrive from outside (nested in a schema received from a plugin), where RootObject's panic would be fatal.
+func (s *ScopeSchema) checkedRootObject() (root *ObjectSchema, err error) {
+	err = recoverAsError(func() {
+		root = s.RootObject()
+	})
+	return root, err
+}
+
 func (s *ScopeSchema) Unserialize(data any) (any, error) {
-	return s.RootObject().Unserialize(data)
+	root, err := s.checkedRootObject()
+	if err != nil {
+		return nil, err
+	}
+	return root.Unserialize(data)
 }
 
 func (s *ScopeSchema) ValidateCompatibility(typeOrData any) error {
+	root, err := s.checkedRootObject()
+	if err != nil {
+		return err
+	}
 	schemaType, ok := typeOrData.(*ScopeSchema)
 	if ok {
-		return s.RootObject().ValidateCompatibility(schemaType.ObjectsValue[schemaType.RootValue])
+		return root.ValidateCompatibility(schemaType.ObjectsValue[schemaType.RootValue])
 	}
 
-	return s.RootObject().ValidateCompatibility(typeOrData)
+	return root.ValidateCompatibility(typeOrData)
 }
 
 func (s *ScopeSchema) Validate(data any) error {
-	return s.RootObject().Validate(data)
+	root, err := s.checkedRootObject()
+	if err != nil {
+		return err
+	}
+	return root.Validate(data)
 }
 
 func (s *ScopeSchema) Serialize(data any) (any, error) {
-	return s.RootObject().Serialize(data)
+	root, err := s.checkedRootObject()
+	if err != nil {
+		return nil, err
+	}
+	return root.Serialize(data)
 }
 
 func (s *ScopeSchema) ApplySelf() {
